@@ -879,6 +879,11 @@ class C09(Suite):
             if abs(mpmath.mpf(r) / 65536 - T) > mpmath.mpf(4) / 65536 + abs(mpmath.asin(T)) ** 9 / 362880:
                 return "%s(raw %d) = %d exceeds the bound (high precision)" % (fn, v, r)
         return None
+    def companions(self, fn, tag, a):
+        """the reduced representatives the periodicity relation compares a large argument with"""
+        if fn not in ("sin", "cos"): return []
+        m = 2 * PHI; y = a[0] - (a[0] // m) * m
+        return ["%s %d" % (fn, y), "%s %d" % (fn, y - m)]
     def post(self, res):
         bad = []
         for l, r in res.items():
@@ -933,6 +938,9 @@ class C10(Suite):
         if pole: return "tan(raw %d) = %d is not NaN at the pole" % (v, r)
         if abs(v) > PHI: return None
         return None if tan_ref_ok(v, r, 2.5) else "tan(raw %d) = %d (true %.6f): exceeds 2.5 ulp*(1+tan^2)" % (v, r, math.tan(v / 65536.0) * 65536)
+    def companions(self, fn, tag, a):
+        if fn != "tan": return []
+        return ["tan %d" % (-a[0]), "tan %d" % (abs(a[0]) % PHI), "tan %d" % (-(abs(a[0]) % PHI))]
     def post(self, res):
         bad = []
         for l, r in res.items():
